@@ -15,6 +15,8 @@ def model_ops_for_prop_case(case):
             g.add_line(l)
     except gfapy.Error:
         return [], []
+    if any(l.virtual for l in g.lines):
+        return [], []     # a placeholder line cannot be handed to the model as a line
     ops = [op("g.new", v)] + [op("g.add", str(l)) for l in g.lines if l.record_type in "SLCPEGFOU"]
     exp = ["ok"] * len(ops)
     ops.append(op("g.cc")); exp.append("ok " + ";".join(sorted(",".join(sorted(s.name for s in c)) for c in g.connected_components())))
